@@ -145,7 +145,7 @@ func c12wRun(c *kit.Ctx, env *c12env, seq []string) {
 			detail["trail"] = trail
 			if kit.ErrTimeout(err) {
 				c.Violation(fmt.Sprintf("C12:no-response:%s:in-%s:wsp", sym, st.phase), detail)
-			} else if strings.Contains(err.Error(), "exactly one") || strings.Contains(err.Error(), "extra bytes") {
+			} else if strings.Contains(err.Error(), "exactly one") || strings.Contains(err.Error(), "extra bytes") || strings.Contains(err.Error(), "is not one complete WSP response") {
 				c.Violation("C12:wsp-response-not-exactly-one-rtsp-response:"+sym, detail)
 			} else {
 				c.Violation(fmt.Sprintf("C12:connection-closed-without-response:%s:in-%s:wsp", sym, st.phase), detail)
